@@ -55,6 +55,12 @@ m = {
          "kind_free_text": "program interpreter over adapter compositions with logging leaf allocators"},
         {"name": "fence", "path": "targets/fence.cpp", "serves_properties": ["C17"],
          "kind_free_text": "program interpreter: write sets around low-level allocator nodes"},
+        {"name": "obj", "path": "targets/obj.cpp", "serves_properties": ["C11", "C20"],
+         "kind_free_text": "program interpreter: joint objects and object-creating helpers with a throwing element type"},
+        {"name": "thr", "path": "targets/thr.cpp", "serves_properties": ["C13", "C14"],
+         "kind_free_text": "program interpreter: instrumented mutex/allocator shell; scheduled threads in forked children"},
+        {"name": "cont", "path": "targets/cont.cpp", "serves_properties": ["C10"],
+         "kind_free_text": "program interpreter: STL containers over two logging allocators + generated node-size TU"},
         {"name": "pure", "path": "targets/pure.cpp", "serves_properties": ["C19"],
          "kind_free_text": "exhaustive + random comparison of arithmetic helpers with reference definitions"},
     ],
